@@ -15,7 +15,7 @@ ENGINE_TEXT = {
  "C09": "C09_* on crash traces: every sampled prefix of the durable write log of varied executions (failing plans, tolerated failures, checks, bypass, concurrency) rebuilt into a fresh store and recovered; second crash during recovery",
  "C10": "C10_* on the same crash traces with outcomes a function of the action: termination, consistency, deferred ran, same outcome as the uninterrupted run",
  "C11": "C11_* on stores holding 2-4 plans in assorted durable states and ages around the configured maximum, recovery on and off",
- "C12": "C12_* on API histories (Submit/Start/Wait/Status/Plan on known and unknown ids), racing Starts, stale submissions; process death is observed by the driver",
+ "C12": "C12_* on API histories (Submit/Start/Wait/Status/Plan on known and unknown ids), racing Starts, stale submissions; process death is observed by the driver; plus spec/Exec.tla, the plan registry as a concurrent system (Start/runPlan/Wait/Status/recover, two plans, several callers, crash and new process, two-container vault), model-checked exhaustively, with Workstream histories (racing and background callers, two plans, restarts with and without recovery, lagging search index) recorded from the real code and validated against it by TLC (spec/ExecTrace.tla)",
 }
 SEQ = {
  "C13": ("spec/Vault.tla", "TLC enumerates vault operation histories (Create/Update*/Read/Delete) with the expected reply after every step; Go replay on a fresh sqlite vault and a fresh cosmosdb fake vault compares every reply, Read structurally against a concrete reference plan built from value classes"),
@@ -35,6 +35,8 @@ for pid in sorted(list(ENGINE_TEXT) + [p for p in SEQ if os.path.exists(os.path.
     else:
         text, engine, tech = SEQ[pid][1], "seq-replay", "TLA+ model (%s) as reference semantics; TLC-generated cases replayed on the real code, reply compared after every step" % SEQ[pid][0]
         note = "trusted: TLC, the TLA+ model as reference semantics, the Go replay's concretisation of abstract values; bounded case families"
+    if pid == "C12":
+        tech += "; the registry itself is a second explicit TLA+ specification (Exec.tla: one action per critical section of Start/runPlan/Wait/recover) model-checked by TLC (invariants OneRunner, AtMostOnce, StartOnce, WaitTruth, StaleRejected, MutexInv, NoPanic; liveness under fairness), and every recorded Workstream history must be a behaviour of it (trace validation with inferred silent steps, ExecTrace.tla)"
     checks.append({"property_id": pid, "quick_cmd": "./check %s --tier quick" % pid, "thorough_cmd": "./check %s --tier thorough" % pid,
                    "evidence_file": "evidence/%s.json" % pid, "replay_cmd_template": "./check %s --replay {path}" % pid, "engine": engine,
                    "level_claimed": {"category": "model_checking", "text": text, "design_ref": "DESIGN.md section 6 (%s)" % pid},
